@@ -503,13 +503,395 @@ def drop(*keys):
     return f
 
 
-class ModelArgs(Corr):
-    """a Corr whose generated args carry harness-only fields (`text`, `raw`, …) next to
-    what the driver reads; the driver ignores unknown fields, so nothing to strip"""
+# ------------------------------------------------------------------ the end-to-end oracle
+def strict_config():
+    from xsdata.formats.dataclass.parsers.config import ParserConfig
+
+    return ParserConfig(fail_on_unknown_properties=True, fail_on_unknown_attributes=True, fail_on_converter_warnings=True)
+
+
+def oracle_xml(a):
+    """the property on the real pipeline: classes from the samples, every sample parses strictly
+    into the root class and serialises back to the same infoset"""
+    import warnings
+
+    from lxml import etree
+    from xsdata.formats.dataclass.context import XmlContext
+    from xsdata.formats.dataclass.parsers import XmlParser
+    from xsdata.formats.dataclass.serializers import XmlSerializer
+
+    docs = a["docs"]
+    g = CG.run_pipeline({f"s{i}.xml": t for i, t in enumerate(docs)})
+    try:
+        if g.error is not None:
+            return f"generation failed: {type(g.error).__name__}: {g.error}"
+        ctx = XmlContext()
+        root_q = etree.fromstring(docs[0].encode()).tag
+        roots = [c for c in g.classes().values() if hasattr(c, "__dataclass_fields__") and "." not in c.__qualname__ and ctx.build(c).qname == root_q]
+        if len(roots) != 1:
+            return f"{len(roots)} generated classes answer to the root element {root_q}"
+        for i, text in enumerate(docs):
+            parser = XmlParser(context=ctx, config=strict_config())
+            try:
+                with warnings.catch_warnings():
+                    warnings.simplefilter("error")
+                    obj = parser.from_string(text, roots[0])
+            except Exception as e:  # noqa: BLE001
+                return f"sample {i} rejected: {type(e).__name__}: {str(e)[:200]}"
+            try:
+                out = XmlSerializer(context=ctx).render(obj)
+            except Exception as e:  # noqa: BLE001
+                return f"sample {i} parsed but cannot be serialised: {type(e).__name__}: {str(e)[:200]}"
+            d = S.infoset_diff(S.infoset(text), S.infoset(out))
+            if d:
+                return f"sample {i} re-serialised differently: {d}"
+    finally:
+        g.close()
+    return None
+
+
+def oracle_json(a):
+    import warnings
+
+    from xsdata.formats.dataclass.context import XmlContext
+    from xsdata.formats.dataclass.parsers import JsonParser
+    from xsdata.formats.dataclass.serializers import JsonSerializer
+
+    docs = a["docs"]
+    g = CG.run_pipeline({f"s{i}.json": json.dumps(d) for i, d in enumerate(docs)})
+    try:
+        if g.error is not None:
+            return f"generation failed: {type(g.error).__name__}: {g.error}"
+        key = g.package.replace("_", "").lower()
+        roots = [c for n, c in g.classes().items() if n.replace("_", "").lower() == key]
+        if len(roots) != 1:
+            return f"{len(roots)} generated classes answer to the document name {g.package}: {sorted(g.classes())}"
+        ctx = XmlContext()
+        for i, d in enumerate(docs):
+            parser = JsonParser(context=ctx, config=strict_config())
+            try:
+                with warnings.catch_warnings():
+                    warnings.simplefilter("error")
+                    obj = parser.from_string(json.dumps(d), roots[0])
+            except Exception as e:  # noqa: BLE001
+                return f"sample {i} rejected: {type(e).__name__}: {str(e)[:200]}"
+            try:
+                out = json.loads(JsonSerializer(context=ctx).render(obj))
+            except Exception as e:  # noqa: BLE001
+                return f"sample {i} parsed but cannot be serialised: {type(e).__name__}: {str(e)[:200]}"
+            diff = S.json_diff(S.json_norm(d), S.json_norm(out))
+            if diff:
+                return f"sample {i} re-serialised differently: {diff}"
+    finally:
+        g.close()
+    return None
+
+
+# ------------------------------------------------------------------ known-defect regions (precise predicates on the samples)
+def occurrences(trees):
+    occ = {}
+
+    def walk(e):
+        occ.setdefault(e["q"], []).append(e)
+        for c in e["c"]:
+            walk(c)
+
+    for t in trees:
+        walk(t)
+    return occ
+
+
+def class_like(e):
+    """what ElementMapper.build_elements turns into an inner class"""
+    return bool(e["a"] or e["c"])
+
+
+def interleave_blocks(names):
+    """own computation: names whose first..last index ranges overlap (transitively) form a block;
+    only names that repeat open a range, and only when at least two distinct names are present.
+    Returns name -> (block number from 1 in document order, member names)"""
+    first, last, count = {}, {}, {}
+    for i, n in enumerate(names):
+        first.setdefault(n, i)
+        last[n] = i
+        count[n] = count.get(n, 0) + 1
+    if len(first) < 2:
+        return {}
+    ranges = sorted((first[n], last[n]) for n in first if count[n] > 1)
+    blocks = []
+    for lo, hi in ranges:
+        if blocks and lo <= blocks[-1][1]:
+            blocks[-1][1] = max(blocks[-1][1], hi)
+        else:
+            blocks.append([lo, hi])
+    out = {}
+    for i, (lo, hi) in enumerate(blocks):
+        members = frozenset(names[lo:hi + 1])
+        for n in members:
+            out[n] = (i + 1, members)
+    return out
+
+
+def region_groups(trees):
+    """an element name whose occurrences disagree on the block of repeats a child belongs to (the
+    position of the block among the blocks, or the child's companions in it)"""
+    for q, els in occurrences(trees).items():
+        seen = {}
+        parts = [(e, interleave_blocks([c["q"] for c in e["c"]])) for e in els]
+        for e, part in parts:
+            for n in {c["q"] for c in e["c"]}:
+                blk = part.get(n)
+                if n in seen and seen[n] != blk:
+                    return f"children of {q}: {n} is in block {seen[n] and (seen[n][0], sorted(seen[n][1]))} in one occurrence and {blk and (blk[0], sorted(blk[1]))} in another"
+                seen[n] = blk
+    return None
+
+
+def region_empty(trees):
+    """an element name that occurs with attributes/children and also completely empty"""
+    for q, els in occurrences(trees).items():
+        full = [e for e in els if e["c"] or [k for k, _ in e["a"] if k != S.qn(S.XSI, "nil")]]
+        empty = [e for e in els if not e["a"] and not e["c"] and not (e["t"] or "")]
+        if full and empty:
+            return f"{q} occurs with content and as <{q}/>"
+    return None
+
+
+def falsy_lexical(t):
+    t = (t or "").strip()
+    if t in ("false", ""):
+        return True
+    try:
+        return float(t) == 0
+    except ValueError:
+        return False
+
+
+def region_union_falsy(trees):
+    """an element name that is a class in one place (attributes, xsi:nil) and a plain leaf carrying
+    false / 0 / nothing in another: the class|primitive union node drops falsy results"""
+    for q, els in occurrences(trees).items():
+        cls = [e for e in els if class_like(e)]
+        falsy = [e for e in els if not class_like(e) and falsy_lexical(e["t"])]
+        if cls and falsy:
+            return f"{q} occurs with attributes and as a plain leaf with the value {falsy[0]['t']!r}"
+    return None
+
+
+def value_sites(trees):
+    """site -> the lexical values found there; a site is what becomes one generated field"""
+    sites = {}
+    for q, els in occurrences(trees).items():
+        for e in els:
+            for k, v in e["a"]:
+                if k != S.qn(S.XSI, "nil"):
+                    sites.setdefault((q, "@" + k), []).append(v)
+            if class_like(e) and (e["t"] or "").strip() and not e["c"]:
+                sites.setdefault((q, "#text"), []).append(e["t"])
+            for c in e["c"]:
+                if not class_like(c):
+                    sites.setdefault((q, c["q"]), []).append(c["t"] or "")
+    return sites
+
+
+def region_union(trees):
+    """a field whose sample values are inferred to different types, one of which reads another's
+    value leniently: the generated union tries its members in a fixed order, not by strict fit"""
+    from xsdata.codegen.mappers.mixins import RawDocumentMapper
+    from xsdata.formats.converter import converter
+    from xsdata.models.enums import DataType
+
+    for site, values in value_sites(trees).items():
+        dts = []
+        for v in values:
+            dt = DataType.from_qname(RawDocumentMapper.build_attr_type("x", v).qname)
+            if dt not in dts and dt is not DataType.ANY_SIMPLE_TYPE:
+                dts.append(dt)
+        if len(dts) < 2:
+            continue
+        types = converter.sort_types([dt.type for dt in dts])
+        for v in values:
+            if not v:
+                continue
+            try:
+                back = converter.serialize(converter.deserialize(v, types))
+            except Exception:  # noqa: BLE001
+                continue
+            if back != v:
+                return f"{site[0]} {site[1]}: values typed {[d.code for d in dts]}; {v!r} is read back as {back!r}"
+    return None
+
+
+def region_absent_nillable(trees):
+    """an optional child that is absent somewhere and nil somewhere else"""
+    occ = occurrences(trees)
+    nil_names = {q for q, els in occ.items() if any(k == S.qn(S.XSI, "nil") for e in els for k, _ in e["a"])}
+    for q, els in occ.items():
+        present = [{c["q"] for c in e["c"]} for e in els if class_like(e)]
+        for n in nil_names:
+            if any(n in p for p in present) and any(n not in p for p in present):
+                return f"{n} is nil in one place and absent from an occurrence of {q}"
+    return None
+
+
+XML_REGIONS = [
+    ("C13-union-member-order", region_union),
+    ("C13-sequence-from-first-occurrence", region_groups),
+    ("C13-empty-occurrence-ignored", region_empty),
+    ("C13-union-node-falsy-value", region_union_falsy),
+    ("C13-absent-nillable-rendered-nil", region_absent_nillable),
+]
+
+
+def xml_region(docs):
+    trees = [S.from_xml(d) for d in docs]
+    for fid, pred in XML_REGIONS:
+        why = pred(trees)
+        if why:
+            return fid, why
+    return None
+
+
+def json_sites(docs, name="doc"):
+    """class name -> key -> values, the way DictMapper names classes after keys"""
+    out = {}
+
+    def walk(d, cls):
+        for k, v in d.items():
+            vals = v if isinstance(v, list) else [v]
+            out.setdefault(cls, {}).setdefault(k, []).append(v)
+            for x in vals:
+                if isinstance(x, dict):
+                    walk(x, k)
+
+    for d in docs:
+        walk(d, name)
+    return out
+
+
+def region_json_null_array(docs):
+    for cls, keys in json_sites(docs).items():
+        for k, vals in keys.items():
+            if any(isinstance(v, list) for v in vals) and any(v is None for v in vals):
+                return f"{cls}.{k} is an array in one place and null in another"
+    return None
+
+
+def region_json_typed_string(docs):
+    from xsdata.codegen.mappers.mixins import RawDocumentMapper
+    from xsdata.models.enums import DataType
+
+    for s in (x for d in docs for x in S.json_strings(d)):
+        dt = DataType.from_qname(RawDocumentMapper.build_attr_type("x", s).qname)
+        if dt is not None and dt.type in (int, bool, float) or (dt is not None and dt.type.__name__ == "Decimal"):
+            return f"the string {s!r} is inferred as {dt.code}"
+    return None
+
+
+JSON_REGIONS = [
+    ("C13-json-null-for-array", region_json_null_array),
+    ("C13-json-string-typed-by-lexical-form", region_json_typed_string),
+]
+
+
+def json_region(docs):
+    for fid, pred in JSON_REGIONS:
+        why = pred(docs)
+        if why:
+            return fid, why
+    return None
+
+
+# ------------------------------------------------------------------ oracles as correspondence ops and for the search
+def clean_xml_docs(rng, hetero=0.0):
+    """samples of a hidden regular model; with hetero=0 they avoid the listed defect regions mostly"""
+    m = S.gen_xml_model(rng, hetero=hetero, group_min=2 if hetero == 0 else 1)
+    return [
+        S.to_xml(S.instance(rng, m, 2 if hetero == 0 else 1), pretty=rng.random() < 0.3, default_ns=rng.choice(S.NAMESPACES))
+        for _ in range(rng.randint(1, 4))
+    ]
+
+
+WITNESS_XML = {
+    "C13-union-member-order": ["<r><code>007</code></r>", "<r><code>12</code></r>"],
+    "C13-sequence-from-first-occurrence": ["<r><a>1</a><b>x</b></r>", "<r><a>1</a><b>x</b><a>2</a><b>y</b></r>"],
+    "C13-empty-occurrence-ignored": ["<r><v><w>1</w></v><v/></r>"],
+    "C13-union-node-falsy-value": ['<r><x a="1">true</x><x>false</x></r>'],
+    "C13-absent-nillable-rendered-nil": [f'<r xmlns:xsi="{S.XSI}"><a>1</a><n xsi:nil="true"/></r>', "<r><a>2</a></r>"],
+}
+WITNESS_JSON = {
+    "C13-json-null-for-array": [{"a": [1]}, {"a": None}],
+    "C13-json-string-typed-by-lexical-form": [{"a": "12"}],
+}
+HAND_OK_XML = [
+    ["<r><a>1</a><b>x</b><a>2</a><b>y</b><c>z</c></r>"],
+    ['<p:r xmlns:p="urn:p" xmlns:q="urn:q" q:at="1" at2="v"><p:a>1</p:a><q:b>x</q:b><c>z</c></p:r>'],
+    ["<r><p>hello <b>x</b> world</p></r>"],
+    ["<r><a>1</a><o>true</o></r>", "<r><a>2</a></r>"],
+    ['<r><item id="1"><n>x</n></item><item id="2"><n>y</n><m>2.5</m></item></r>'],
+    [f'<r xmlns:xsi="{S.XSI}"><a xsi:nil="true"/><b>1</b></r>', "<r><a>5</a><b>1</b></r>"],
+]
+
+
+def e2e_xml_args(docs):
+    trees = [S.from_xml(d) for d in docs]
+    return {"docs": docs, "trees": trees, "abs": abs_table(s for t in trees for s in S.tree_strings(t))}
+
+
+def gen_e2e_xml(rng, tier):
+    for docs in HAND_OK_XML:
+        yield e2e_xml_args(docs)
+    for docs in WITNESS_XML.values():
+        yield e2e_xml_args(docs)
+    for i in range(n_cases(tier, 260, 3000)):
+        yield e2e_xml_args(clean_xml_docs(rng, hetero=0.3 if i % 6 == 5 else 0.0))
+
+
+def outcome(msg, region):
+    if msg is None:
+        return ok("accepted")
+    if region:
+        return ok("finding:" + region[0])
+    return err("violation: " + msg)
+
+
+def impl_e2e_xml(a):
+    return outcome(oracle_xml(a), xml_region(a["docs"]))
+
+
+def e2e_json_args(docs):
+    return {"docs": docs, "enc": [S.enc_json(d) for d in docs], "name": "doc", "abs": abs_table(s for d in docs for s in S.json_strings(d))}
+
+
+def clean_json_docs(rng, hetero=0.0):
+    m = S.gen_json_model(rng, hetero=hetero)
+    return [S.json_instance(rng, m, null_arrays=hetero > 0) for _ in range(rng.randint(1, 4))]
+
+
+def gen_e2e_json(rng, tier):
+    yield e2e_json_args([{"a": 1, "b": "x", "c": None, "d": [], "e": [1, 2], "f": {"g": True}, "h": [{"i": 1.5}, {"i": None, "j": "k"}]}])
+    for docs in WITNESS_JSON.values():
+        yield e2e_json_args(docs)
+    for i in range(n_cases(tier, 160, 2500)):
+        yield e2e_json_args(clean_json_docs(rng, hetero=0.3 if i % 6 == 5 else 0.0))
+
+
+def impl_e2e_json(a):
+    return outcome(oracle_json(a), json_region(a["docs"]))
+
+
+def compare_e2e(mo, io, a):
+    """the model's own verdict (every mapped occurrence is admitted by the reduced classes) must be
+    `accepted`; the real pipeline must accept the samples or fail inside a listed defect region"""
+    return mo == {"ok": "accepted"} and isinstance(io, dict) and "ok" in io
+
+
+def classify_e2e(a, o):
+    return o.get("ok") or "violation"
 
 
 CORRS = [
-    Corr("smp.test_strict", gen_test_strict, impl_test_strict, describe="converter.test(s,[tp],strict=True) per explicit type (float/Decimal abstract)"),
+    Corr("smp.test_strict", gen_test_strict, impl_test_strict, classify=lambda a, o: f"{a['t']}:{o.get('ok')}", describe="converter.test(s,[tp],strict=True) per explicit type (float/Decimal abstract)"),
     Corr("smp.infer", gen_infer, impl_infer, classify=classify_infer, describe="RawDocumentMapper.build_attr_type on strings, JSON literals, xsi:type"),
     Corr("smp.components", gen_components, impl_components, describe="collections.connected_components"),
     Corr("smp.find_component", gen_find_component, impl_find_component, describe="collections.find_connected_component"),
@@ -519,11 +901,99 @@ CORRS = [
     Corr("smp.reduce", gen_reduce, impl_reduce, classify=classify_classes, describe="ClassUtils.reduce_classes on constructed classes (also malformed)"),
     Corr("smp.xml_docs", gen_xml_docs, impl_xml_docs, classify=classify_classes, describe="process_xml_documents core: map every document, reduce_classes"),
     Corr("smp.json_docs", gen_json_docs, impl_json_docs, classify=classify_classes, describe="process_json_documents core"),
+    Corr("smp.e2e_xml", gen_e2e_xml, impl_e2e_xml, compare=compare_e2e, classify=classify_e2e,
+         describe="whole real pipeline + stand-in renderer on samples of a hidden regular model: strict parse and re-serialisation of every sample; the model side evaluates merged_bounds_sound on the same samples"),
+    Corr("smp.e2e_json", gen_e2e_json, impl_e2e_json, compare=compare_e2e, classify=classify_e2e, describe="the same for JSON samples"),
 ]
 
-ORACLES = []
-FINDINGS = {}
-TRUSTED = []
-ASSUMPTIONS = []
-LEVEL_TEXT = "Partial."
-LEVEL_NOTE = ""
+
+def gen_oracle_xml(rng, tier):
+    for docs in HAND_OK_XML:
+        yield {"docs": docs}
+    for i in range(n_cases(tier, 400, 6000)):
+        yield {"docs": clean_xml_docs(rng, hetero=0.3 if i % 5 == 4 else 0.0)}
+
+
+def gen_oracle_json(rng, tier):
+    for i in range(n_cases(tier, 300, 5000)):
+        yield {"docs": clean_json_docs(rng, hetero=0.3 if i % 5 == 4 else 0.0)}
+
+
+def covered_xml(a, msg):
+    r = xml_region(a["docs"])
+    return r[0] if r else None
+
+
+def covered_json(a, msg):
+    r = json_region(a["docs"])
+    return r[0] if r else None
+
+
+def adapt_xml(op, a):
+    if op in ("smp.e2e_xml",):
+        return {"docs": a["docs"]}
+    if op == "smp.xml_docs":
+        return {"docs": a["texts"]}
+    if op == "smp.map_xml":
+        return {"docs": [a["text"]]}
+    return None
+
+
+def regular_enough(a):
+    return a is not None
+
+
+def adapt_json(op, a):
+    if op == "smp.e2e_json":
+        return {"docs": a["docs"]}
+    if op == "smp.json_docs":
+        return {"docs": a["raw"]}
+    if op == "smp.map_json":
+        return {"docs": [a["raw"]]}
+    return None
+
+
+ORACLES = [
+    Oracle("c13.xml_samples", gen_oracle_xml, oracle_xml, covered=covered_xml, from_ops=("smp.e2e_xml",), adapt=adapt_xml),
+    Oracle("c13.json_samples", gen_oracle_json, oracle_json, covered=covered_json, from_ops=("smp.e2e_json",), adapt=adapt_json),
+]
+
+
+def replay_xml(fid):
+    def run():
+        docs = WITNESS_XML[fid]
+        msg = oracle_xml({"docs": docs})
+        reg = xml_region(docs)
+        return (msg is not None and reg is not None and reg[0] == fid, msg or "the samples now round-trip")
+
+    return run
+
+
+def replay_json(fid):
+    def run():
+        docs = WITNESS_JSON[fid]
+        msg = oracle_json({"docs": docs})
+        reg = json_region(docs)
+        return (msg is not None and reg is not None and reg[0] == fid, msg or "the samples now round-trip")
+
+    return run
+
+
+FINDINGS = {**{k: replay_xml(k) for k in WITNESS_XML}, **{k: replay_json(k) for k in WITNESS_JSON}}
+TRUSTED = [
+    "float and Decimal strict tests are abstract in the model (their answers travel with the request); int, bool, XmlTime, XmlDate, XmlDateTime, XmlDuration, XmlPeriod are computed by the model",
+    "lxml reads the sample text for the model side and compares infosets for the oracle",
+    "jinja2/ruff absent: harness/standin_render.py transliterates the templates; ClassAnalyzer, the renderer, XmlParser/JsonParser and the serializers are exercised end to end only",
+]
+ASSUMPTIONS = [
+    "element and attribute names contain an ASCII letter or digit (Attr.__post_init__ renames others); JSON keys are non-empty",
+    "canonical spelling = what xsdata's own converter writes for the value; JSON: 1 and 1.0 are one number; an absent key, a null and an empty array are one thing",
+    "connected_components is modelled by input/output behaviour (absorbing fold instead of the breadth-first walk)",
+]
+LEVEL_TEXT = (
+    "Partial. Lean theorems (Props/C13.lean) about the executable model of type inference (match_type over the live explicit-type table), "
+    "attribute occurrence merging (add_attribute, reduce_attributes, merge_attributes) and connected components; the full-strength statements that the code "
+    "violates are stated, refuted by witnesses and proved under explicit decidable hypotheses. Tied to /repo by correspondence of every core and by the end-to-end "
+    "oracle on samples of hidden regular models."
+)
+LEVEL_NOTE = "Trusted: Lean kernel, sampling correspondence, lxml, stand-in renderer; float/Decimal lexical tests abstract."
